@@ -56,6 +56,9 @@ pub enum CAct {
     LairInstantiate { growth: usize, nassets: usize },
     LairGrowth { growth: usize },
     TakeRate { r: usize },
+    /// amplification ramp on the most recently created trio (or the base trio) through the factory
+    TrioRamp { kind: String },
+    AdvanceBlocks { n: u64 },
 }
 
 #[derive(Clone, Debug, Hash, Default)]
@@ -127,6 +130,10 @@ impl Scenario for ConfigScn {
                     }
                     v.push(CAct::PairInstantiate { t });
                 }
+                for k in ["x10", "x10+1", "max", "max+1", "x10cap", "zero", "one"] {
+                    v.push(CAct::TrioRamp { kind: k.to_string() });
+                }
+                v.push(CAct::AdvanceBlocks { n: 10_000 });
                 for amp in 0..AMPS.len() {
                     if g.created_trios < TRIO_DENOMS.len() {
                         v.push(CAct::TrioCreate { amp, t: 0 });
@@ -246,6 +253,50 @@ impl Scenario for ConfigScn {
                     g.trios.push(addr.clone());
                 }
                 r.is_ok()
+            }
+            CAct::TrioRamp { kind } => {
+                let target = g.trios.last().cloned().unwrap_or(h.trio.addr.clone());
+                let c: white_whale_std::pool_network::trio::Config = w.query(&target, &white_whale_std::pool_network::trio::QueryMsg::Config {}).expect("trio config");
+                let cur = crate::scn_trio::effective_amp(&c, w.height());
+                let future_a: u64 = match kind.as_str() {
+                    "x10" => cur * 10,
+                    "x10+1" => cur * 10 + 1,
+                    "max" => 1_000_000,
+                    "max+1" => 1_000_001,
+                    "x10cap" => (cur * 10).max(1_000_001),
+                    "zero" => 0,
+                    _ => 1,
+                };
+                // trios created by the factory are owned by it; directly instantiated ones by MALLORY
+                let msg_direct = white_whale_std::pool_network::trio::ExecuteMsg::UpdateConfig {
+                    owner: None,
+                    fee_collector_addr: None,
+                    pool_fees: None,
+                    feature_toggle: None,
+                    amp_factor: Some(white_whale_std::pool_network::trio::RampAmp { future_a, future_block: w.height() + 10_000 }),
+                };
+                let r1 = w.exec(
+                    OWNER,
+                    &h.fee.pool_factory,
+                    &white_whale_std::pool_network::factory::ExecuteMsg::UpdateTrioConfig {
+                        trio_addr: target.clone(),
+                        owner: None,
+                        fee_collector_addr: None,
+                        pool_fees: None,
+                        feature_toggle: None,
+                        amp_factor: Some(white_whale_std::pool_network::trio::RampAmp { future_a, future_block: w.height() + 10_000 }),
+                    },
+                    &[],
+                );
+                let ok = r1.is_ok() || w.exec(MALLORY, &target, &msg_direct, &[]).is_ok();
+                if ok {
+                    cx.count("ramp:accepted");
+                }
+                ok
+            }
+            CAct::AdvanceBlocks { n } => {
+                w.advance(n * 6_000_000_000, *n);
+                true
             }
             CAct::VaultCreate { asset, t } => {
                 let ai = vault_asset(h, *asset);
